@@ -62,6 +62,9 @@ func VerifC11Stream(maxReplies, mode int) {
 		vReach("stream-closed")
 		vAssert(vLiveGoroutines(gorumsPkg) == 0, "C12.goroutine-left-after-close")
 	}
+	// the completed call leaves no routing entry behind (the receiver may be delivering the
+	// stream-down error while the call's own clean-up runs)
+	vAssert(w.routersLeft() == 0, "C18.routing-entry-left")
 	// done is final
 	_, level2, err2 := corr.Get()
 	vAssert(level2 == level && err2 != nil, "C11.changed-after-done")
